@@ -9,7 +9,7 @@ class C04(E1Prop):
     oracle_name = 'c04'
     adversarial_share = 0.0
     nontrivial_tags = ['duplicate-complete', 'stale-attempt-complete', 'Running->Ready']
-    level_text = 'Oracle after every op: every job row moves only along Pending->Ready->{Creating,Running}->terminal with Ready/Creating/Running->terminal and Creating/Running->Ready allowed, terminal absorbing, Pending never starts or completes; n_completed/n_succeeded/n_failed/n_cancelled of every group equal the recount of terminal jobs in the group and its descendants (duplicated, stale-attempt and late reports included).'
+    level_text = 'Oracle after every op: every job row moves only along Pending->Ready->{Creating,Running}->terminal with Ready/Creating/Running->terminal and Creating/Running->Ready allowed, terminal absorbing, Pending never starts or completes; n_completed/n_succeeded/n_failed/n_cancelled of every group equal the recount of terminal jobs in the group and its descendants (duplicated, stale-attempt and late reports included). A job becomes Running / Creating only under an attempt on a live instance (active; pending for Creating).'
     level_note = ('Partial: the server is harness/minisql (semantics list in trusted_base), every transaction is one atomic step, histories are generated '
                   '(not exhaustive); the Lean model is tied to the code only as far as the compared answers and dumps show. '
                   'Known findings of the unchanged tree are listed in known_findings.json and printed as KNOWN-FINDING.')
